@@ -972,6 +972,39 @@ fn key_kinds(threads: usize, only: Option<&Value>) -> Stats {
     })
 }
 
+/// Names derived from the rules of the shipped list (every rule as-is, wildcard instantiations,
+/// parents, siblings, and 1..12 further labels in front): the lookups and the RP-ID verifier must
+/// return for each - the table walk has paths (deepest rules, wildcard under wildcard, exception
+/// under wildcard) that no short or random name reaches.
+fn rule_name_one(name: &str) -> Option<String> {
+    par::catch(|| {
+        let p = public_suffix::DEFAULT_PROVIDER;
+        use public_suffix::EffectiveTLDProvider;
+        let _ = p.effective_tld_plus_one(name);
+        let _ = p.public_suffix(name);
+        let _ = p.is_effective_tld(name);
+        let v = RpIdVerifier::new(public_suffix::DEFAULT_PROVIDER);
+        let _ = v.is_valid_rp_id(name);
+        if let Ok(u) = url::Url::parse(&format!("https://{name}")) {
+            let o: Origin = (&u).into();
+            let _ = v.assert_domain(&o, None);
+        }
+    })
+    .err()
+}
+fn rule_names(threads: usize) -> Result<Stats, String> {
+    let psl = crate::oracles::psl::Psl::load(super::c10::DAT)?;
+    let mut names: Vec<String> = psl.rules.iter().flat_map(|r| super::c10::names_for_rule(r)).collect();
+    names.sort();
+    names.dedup();
+    Ok(par::sweep_cases(&names, threads, |n, st| {
+        st.case(n, true, "rule-derived-name");
+        if let Some(p) = rule_name_one(n) {
+            st.finding(Finding::new(format!("decoder=public-suffix(rule-derived-name)/site={}/kind={}", site_file(&p), panic_class(&p)), format!("lookup of {n:?} panicked: {p}"), json!({"rule_name": n})));
+        }
+    }))
+}
+
 /// Every length of well-formed base64 / base64url text (with and without padding) up to `max`
 /// decoded bytes, through the three text entry points and a JSON `Bytes` member: a decoder with a
 /// size-dependent fast path must not have a boundary at which it panics.
@@ -1030,6 +1063,9 @@ pub fn run(ctx: &Ctx) -> Result<Run, String> {
             }
         }
     }
+    let rn = rule_names(ctx.threads)?;
+    stats.count("rule_derived_names", rn.evaluations);
+    stats.merge(rn);
     let kk = key_kinds(ctx.threads, None);
     stats.count("key_kind_cases", kk.evaluations);
     stats.merge(kk);
@@ -1049,7 +1085,7 @@ pub fn run(ctx: &Ctx) -> Result<Run, String> {
     let ndec = sp.decs.len();
     let mut run = Run::from_stats(
         "exploration",
-        "for each of 28 public decoders (CTAP2 CBOR messages, authenticator data, WebAuthn JSON, base64, U2F raw messages, COSE-key converter, fingerprints, asset links, RP-ID verification, public-suffix lookups): (1) all byte strings up to length 2 (3 thorough) / all strings over an 8-symbol alphabet up to length 5 (7 thorough); (2) every single deviation of valid seed encodings of every message type: truncation at every position, every byte value at every position (CBOR/binary; a 17-symbol menu for JSON/text), and splices at every position of CBOR heads of every major type with declared lengths 2^8..2^64-1 / indefinite, 300- and 100000-deep nesting, JSON structure/number/escape fragments, long and dotted labels (thorough: all pairs of byte-level deviations on short seeds); run in isolated worker processes with a counting allocator (single request > 4 MiB + 32 x input length, or > 256 MiB in total = out of proportion; > 1 GiB refused), 8 MiB stack, per-case watchdog; (2c) well-formed base64 / base64url text, padded or not, of every decoded length 0..4200 (thorough 20000) through Bytes::try_from, try_from_base64url and a JSON Bytes member (must decode to the bytes; no panic at any size boundary); (2d) key kinds: for the richest seed of every CBOR decoder and every map in it (top level and nested), and for authenticator data with ED resp. AT+ED, every ordered pair of added keys from 19 kinds (small/large/negative integers, text, bytes, floats incl. NaN, -0.0 and infinity, booleans, null, empty array, empty map, tag), in front and at the end - well-formed input, the decoder must return; (2b) COSE keys built as structs (0..2 entries per coordinate from a menu of lengths and types, three label orders, repeated labels included) given to the converter directly; (4) scaling families: 14 well-formed message shapes whose collection (PRF per-credential map, allow/exclude list, parameter list, unknown members, COSE parameters, JSON lists and maps, base64 text) grows to 256, 1024, 4096, 16384 (thorough: 65536) elements, with ids/keys that differ only at the front, only at the end or only in the middle, decoded in isolated workers: 4x the elements may not cost more than 9x the CPU time (judged once the larger run exceeds 10 ms, confirmed by a second measurement) nor an allocation out of proportion; (3b) CTAPHID with 1..300 (4096) channels transmitting at once; (3) CTAPHID: BFS over packet sequences on the real ChannelHandler (alphabet: 2 channels x 8 init heads + 4 continuation sequence numbers x 13 packet sizes), deduplicated on the hook snapshot. Non-trivial = distinct non-empty input",
+        "for each of 28 public decoders (CTAP2 CBOR messages, authenticator data, WebAuthn JSON, base64, U2F raw messages, COSE-key converter, fingerprints, asset links, RP-ID verification, public-suffix lookups): (1) all byte strings up to length 2 (3 thorough) / all strings over an 8-symbol alphabet up to length 5 (7 thorough); (2) every single deviation of valid seed encodings of every message type: truncation at every position, every byte value at every position (CBOR/binary; a 17-symbol menu for JSON/text), and splices at every position of CBOR heads of every major type with declared lengths 2^8..2^64-1 / indefinite, 300- and 100000-deep nesting, JSON structure/number/escape fragments, long and dotted labels (thorough: all pairs of byte-level deviations on short seeds); run in isolated worker processes with a counting allocator (single request > 4 MiB + 32 x input length, or > 256 MiB in total = out of proportion; > 1 GiB refused), 8 MiB stack, per-case watchdog; (2c) well-formed base64 / base64url text, padded or not, of every decoded length 0..4200 (thorough 20000) through Bytes::try_from, try_from_base64url and a JSON Bytes member (must decode to the bytes; no panic at any size boundary); (2e) every name derived from a rule of the shipped list (as-is, wildcard instantiations, parent, sibling, 1..12 further labels in front) through the three lookups and the RP-ID verifier; (2d) key kinds: for the richest seed of every CBOR decoder and every map in it (top level and nested), and for authenticator data with ED resp. AT+ED, every ordered pair of added keys from 19 kinds (small/large/negative integers, text, bytes, floats incl. NaN, -0.0 and infinity, booleans, null, empty array, empty map, tag), in front and at the end - well-formed input, the decoder must return; (2b) COSE keys built as structs (0..2 entries per coordinate from a menu of lengths and types, three label orders, repeated labels included) given to the converter directly; (4) scaling families: 14 well-formed message shapes whose collection (PRF per-credential map, allow/exclude list, parameter list, unknown members, COSE parameters, JSON lists and maps, base64 text) grows to 256, 1024, 4096, 16384 (thorough: 65536) elements, with ids/keys that differ only at the front, only at the end or only in the middle, decoded in isolated workers: 4x the elements may not cost more than 9x the CPU time (judged once the larger run exceeds 10 ms, confirmed by a second measurement) nor an allocation out of proportion; (3b) CTAPHID with 1..300 (4096) channels transmitting at once; (3) CTAPHID: BFS over packet sequences on the real ChannelHandler (alphabet: 2 channels x 8 init heads + 4 continuation sequence numbers x 13 packet sizes), deduplicated on the hook snapshot. Non-trivial = distinct non-empty input",
         true,
         stats,
     );
@@ -1086,6 +1122,9 @@ pub fn replay(_ctx: &Ctx, case: &Value) -> Result<Vec<Finding>, String> {
         let n = b["decoded_bytes"].as_u64().unwrap_or(0) as usize;
         let st = base64_lengths_one(n);
         return Ok(st.findings.into_values().map(|x| x.0).filter(|f| f.case == *case).collect());
+    }
+    if let Some(n) = case.get("rule_name").and_then(|n| n.as_str()) {
+        return Ok(rule_name_one(n).map(|p| Finding::new(format!("decoder=public-suffix(rule-derived-name)/site={}/kind={}", site_file(&p), panic_class(&p)), format!("lookup of {n:?} panicked: {p}"), case.clone())).into_iter().collect());
     }
     if case.get("key_kinds").is_some() {
         let st = key_kinds(1, Some(case));
